@@ -96,6 +96,10 @@ def skeleton(e, leaf):
         return "(" + ", ".join(skeleton(x, leaf) for x in e["elems"]) + ")"
     if k == "match":
         return f"match {skeleton(e['scrut'], leaf)} {{..}}"
+    if k == "closure":
+        return "|" + ",".join(pat_name(p) for p in e["params"]) + "| " + skeleton(e["body"], leaf)
+    if k == "field":
+        return f"{skeleton(e['a'], leaf)}.{e['name']}"
     return k or "?"
 
 
